@@ -51,6 +51,13 @@ def gen_cases(rng, tier):
             c["mode"] = rng.choice(["fast", "locked"])
             c["expired"] = []
         cases.append(c)
+    # one '*' with literal text on both sides that OVERLAPS in a key of the set: head and tail each fit, the whole pattern does not
+    for c in list(cases)[:300]:
+        k = max(c["keys"], key=len)
+        if len(k) >= 2 and "*" not in k:
+            i = 1 + len(c["keys"]) % (len(k) - 1) if len(k) > 2 else 1
+            cases.append({"kind": ["scan", "delete_match", "get_match"][len(c["keys"]) % 3], "keys": c["keys"], "pattern": k[:i + 1] + "*" + k[i:] if i < len(k) else k + "*" + k,
+                          "facade": bool(len(k) % 2), "expired": [], "bits": []})
     if tier == "thorough":  # every pattern of length <= 3 against every key of length <= 2 (8-letter sub-alphabet)
         sub = ["a", ":", "*", ".", "+", "(", "|", "$"]
         keys = [k for n_ in (1, 2) for k in map("".join, itertools.product(sub, repeat=n_)) if not k.startswith(":")]
